@@ -43,7 +43,13 @@ def scalar(ip, st, v):
         t = ip.num(v)
         k = lit_int(t)
         if k is None:
-            raise U("symbolic number stored into a context dictionary")
+            # a number known only symbolically: injected into Val by an uninterpreted embedding of the numbers
+            from .smt import to_real
+            f = reg.ufun("num_as_val", ["Real"], "Val")
+            ax = T("(forall ((x Real)) (! (not (isD (num_as_val x))) :pattern ((num_as_val x))))", "Bool")
+            if not any(a.s == ax.s for a in reg.axioms):
+                reg.axioms.append(ax)
+            return T("(%s %s)" % (f, to_real(t).s), "Val")
         key, truthy = "num:%d" % k, k != 0
     elif isinstance(v, Opaque) and v.sort == "Key":
         f = reg.ufun("key_as_val", ["Key"], "Val")
